@@ -6,7 +6,7 @@ Import ListNotations.
 From SU Require Import F32 F32Lemmas.
 From SU.Model Require Import Quantizer.
 From SU.Spec Require Import QuantSpec.
-From SU.Proofs Require Import QuantFloat QuantProofs.
+From SU.Proofs Require Import QuantFloat QuantProofs QuantReal.
 Open Scope Z_scope.
 
 (** a quantizer with no prior conversion is never inside a hysteresis window: its result
@@ -37,6 +37,22 @@ Theorem C08_monotone : forall a x y,
   find_nearest_note a (clamp_vin x) <= find_nearest_note a (clamp_vin y).
 Proof. exact nearest_note_mono. Qed.
 
+(** the same in the property's own wording, in volts ([volt N] = N/12 V) with the 10 microvolt
+    tolerance: the reported note is allowed; an allowed note lying between 10 uV and one
+    semitone - 10 uV below the (clamped) input always wins; and in every case the reported note
+    lies in the 10 uV-widened semitone bucket at or below the input, or is nearest among all
+    allowed notes of octaves 0..10 up to 10 uV *)
+Theorem C08_real : forall a v, valid_mask a ->
+  let x := R32 (clamp_vin v) in
+  let Rn := find_nearest_note a (clamp_vin v) in
+  (note_allowed a Rn = true /\ (0 <= Rn <= 131) /\ (0 <= x <= 10)%R /\
+   (forall B, In B all_notes -> note_allowed a B = true ->
+      (/ 100000 <= x - volt B <= / 12 - / 100000)%R -> Rn = B) /\
+   ((- / 100000 <= x - volt Rn <= / 12 + / 100000)%R \/
+    (forall N, In N all_notes -> note_allowed a N = true ->
+       (Rabs (x - volt Rn) <= Rabs (x - volt N) + / 100000)%R))).
+Proof. exact nearest_real. Qed.
+
 (** non-vacuity / the example of the repaired octave order: only D# allowed, 1.8333 V *)
 Example C08_example :
   find_nearest_note 8 (clamp_vin (of_bits 1072343443)) = 27 /\ valid_mask 8.
@@ -45,3 +61,4 @@ Proof. split; [vm_compute; reflexivity | unfold valid_mask; lia]. Qed.
 Print Assumptions C08_fresh_is_memoryless.
 Print Assumptions C08_nearest.
 Print Assumptions C08_monotone.
+Print Assumptions C08_real.
